@@ -741,5 +741,50 @@ def renderL {R : Type} (b : Backend R) : List RT → Option (List R)
       | some rs => some (r :: rs)
 end
 
+
+/-! ### operation histories -/
+
+/-- One operation applied to the current text (operands are objects, i.e. already built). -/
+inductive Op where
+  | add (x : RT)                -- `cur + x`
+  | radd (x : RT)               -- `x + cur`
+  | append (x : RT)             -- `cur.append(x)`
+  | joinWith (xs : List RT)     -- `cur.join(xs)`
+  | slice (i j : Option Int)    -- `cur[i:j]`
+  | index (i : Int)             -- `cur[i]`
+  | upper | lower | capfirst | capitalize
+  | addPeriod                   -- `cur.add_period()`
+  | splitPick (sep : Sep) (keep : Option Bool) (pick : Nat)
+                                -- `ps = cur.split(sep, keep)`; continue with `ps[pick % len(ps)]`
+deriving Repr
+
+/-- `terms` = `textutils.terminators`. -/
+def step (terms : List Str) (t : RT) : Op → Except Err RT
+  | .add x => .ok (add t x)
+  | .radd x => .ok (add x t)
+  | .append x => .ok (append t x)
+  | .joinWith xs => .ok (join t xs)
+  | .slice i j => .ok (getSlice t i j)
+  | .index i => getIndex t i
+  | .upper => .ok (upperT t)
+  | .lower => .ok (lowerT t)
+  | .capfirst => .ok (capfirst t)
+  | .capitalize => .ok (capitalize t)
+  | .addPeriod => .ok (addPeriod terms (.str ['.']) t)
+  | .splitPick sep keep pick =>
+    let ps := split sep t keep
+    match ps[pick % ps.length]? with
+    | some p => .ok p
+    | none => .ok t
+
+/-- Apply the operations on top of one another; an operation that raises leaves the current text
+as it is.  Returns the outcome of every step. -/
+def run (terms : List Str) (t : RT) : List Op → List (Except Err RT)
+  | [] => []
+  | op :: ops =>
+    match step terms t op with
+    | .ok t' => .ok t' :: run terms t' ops
+    | .error e => .error e :: run terms t ops
+
 end RT
 end Pybtex
